@@ -60,3 +60,232 @@ Proof.
   assert (H2 : has_char c_dq a = false) by (vm_compute; reflexivity).
   refine (conj (conj H1 (conj H2 _)) (conj _ (C10_foam_choice a H1 H2))); vm_compute; repeat split; reflexivity.
 Qed.
+
+(* ================================================================================================================= *)
+(* End to end: FoamFormatter.to_string, then the reader of .foam files (NativeParser.parse_string)                    *)
+(* ================================================================================================================= *)
+From DictIO Require Import E2ESpec E2EProofs E2EHoles E2EFullProofs FoamProofs.
+
+(* The Foam writer domain (FoamProofs):
+     foam_leaf v            := writable_leaf v (the native writer domain of C01) and, for a string, no double quote in it
+                               (an apostrophe, blanks, delimiters, brackets, a backslash, the empty string are fine);
+     foam_writable_tree t   := every leaf is a foam_leaf; every dict key either starts with an underscore (us_key: it
+                               is dropped with its whole value, which is unconstrained) or is a simple_key;
+     foam_written_value v   := the classifier applied to the content of the Foam-written form of v (the analogue of
+                               written_value; C10_values_as_native: on the Foam domain the two coincide).
+   Writing a dict in OpenFOAM format and reading the text back returns the dict without its underscore keys (at every
+   level of dict nesting, also inside lists), same keys in the same order, same nesting, every leaf as the classifier
+   reads the content of its written form.  The FoamFile header entry is not part of foam_to_string_plain (it comes with
+   the default block comment of foam_to_string_sd) and so does not occur on either side.
+   Side conditions as in C01_roundtrip (counter, number of quoted leaves, depth of quoted leaves). *)
+Theorem C10_roundtrip : forall kvs dirc count,
+  wf (Dict kvs) = true -> foam_writable_tree (Dict kvs) = true ->
+  (-1 <= count)%Z -> (Z.of_nat (nq (Dict kvs)) <= 1000000)%Z -> quoted_within 11 (Dict kvs) = true ->
+  exists count',
+  parse_string true dirc count (foam_to_string_plain kvs) =
+    Ok (mkParsed (mkSD (kvs_of (map_leaves foam_written_value (strip_us (Dict kvs)))) [] [] [] []) count').
+Proof. exact roundtrip_foam. Qed.
+Print Assumptions C10_roundtrip.
+
+(* The side conditions, each needed (C10_side_conditions_needed below) and each met by the example:
+     wf (Dict kvs)                 unique keys at every dict level (a Python dict);          example: vm_compute
+     foam_writable_tree (Dict kvs) the value domain of the property;                          example: vm_compute
+     -1 <= count                   BorgCounter starts at -1; below that two literals share placeholder 000000
+     nq (Dict kvs) <= 1000000      placeholders carry six digits; the example has 8 quoted leaves (7 of them written)
+     quoted_within 11 (Dict kvs)   a quoted leaf more than ten keys deep makes set_global_key raise RecursionError;
+                                   the example's deepest quoted leaf sits 3 keys deep *)
+Example C10_side_conditions_needed :
+  (* counter below -1: both literals get number 0, the second value overwrites the first *)
+  (wf (Dict ce_counter) = true /\ foam_writable_tree (Dict ce_counter) = true /\
+   parse_string true [] (-2)%Z (foam_to_string_plain ce_counter) =
+     Ok (mkParsed (mkSD [(KS (of_string "a"), Leaf (SStr (of_string "u v"))); (KS (of_string "b"), Leaf (SStr (of_string "u v")))] [] [] [] []) 0%Z) /\
+   kvs_of (map_leaves foam_written_value (strip_us (Dict ce_counter))) = ce_counter) /\
+  (* a quoted leaf eleven keys deep: RecursionError *)
+  (wf (Dict ce_deep) = true /\ foam_writable_tree (Dict ce_deep) = true /\ quoted_within 11 (Dict ce_deep) = false /\
+   parse_string true [] 0%Z (foam_to_string_plain ce_deep) = Raise E_Recursion).
+Proof. vm_compute. repeat split; reflexivity. Qed.
+
+Definition c10_S (s : string) : tree := Leaf (SStr (of_string s)).
+Definition c10_K (s : string) : key := KS (of_string s).
+(* depth 4; underscore keys at levels 1, 2 and 3 and inside a list; an apostrophe, blanks, the empty string,
+   structural characters, a lone bracket, a padded word, a number-like string; int keys 7 and 5 *)
+Definition c10_doc : list (key * tree) :=
+  [(c10_K "_top", Leaf (SInt 1));
+   (c10_K "keep", Dict [(c10_K "_in", c10_S "x y"); (c10_K "a_b", c10_S "two words");
+                        (KI 7, Dict [(c10_K "_deep", Leaf SNone); (c10_K "apo", c10_S "it's"); (c10_K "e", c10_S "");
+                                     (c10_K "st", c10_S "a;b {c}")])]);
+   (c10_K "l", Lst [Dict [(c10_K "_x", Leaf SNone); (KI 5, c10_S "(")]; Lst [c10_S " true "; Leaf (SFloat (of_string "1.5"))];
+                    c10_S "12"; c10_S "plain"])].
+(* what comes back: the underscore keys are gone; " true " and "12" are re-typed by the classifier *)
+Definition c10_back : list (key * tree) :=
+  [(c10_K "keep", Dict [(c10_K "a_b", c10_S "two words");
+                        (KI 7, Dict [(c10_K "apo", c10_S "it's"); (c10_K "e", c10_S ""); (c10_K "st", c10_S "a;b {c}")])]);
+   (c10_K "l", Lst [Dict [(KI 5, c10_S "(")]; Lst [Leaf (SBool true); Leaf (SFloat (of_string "1.5"))];
+                    Leaf (SInt 12); c10_S "plain"])].
+
+Example C10_roundtrip_nonvacuous :
+  (* the hypotheses *)
+  wf (Dict c10_doc) = true /\ foam_writable_tree (Dict c10_doc) = true /\
+  (Z.of_nat (nq (Dict c10_doc)) <= 1000000)%Z /\ quoted_within 11 (Dict c10_doc) = true /\
+  (* strip_us has work to do *)
+  has_us_key (Dict c10_doc) = true /\
+  (* the written text *)
+  foam_to_string_plain c10_doc = of_string
+"keep
+{
+    a_b                       ""two words"";
+    7
+    {
+        apo                   ""it's"";
+        e                     """";
+        st                    ""a;b {c}"";
+    }
+}
+l
+(
+
+    {
+        5                     ""("";
+    }
+    (
+        "" true ""          1.5
+    )
+    12                plain
+);
+" /\
+  (* computed *)
+  parse_string true [] 7 (foam_to_string_plain c10_doc) = Ok (mkParsed (mkSD c10_back [] [] [] []) 13) /\
+  kvs_of (map_leaves foam_written_value (strip_us (Dict c10_doc))) = c10_back /\
+  (* by the theorem *)
+  (exists count', parse_string true (of_string "/some/dir") 41 (foam_to_string_plain c10_doc) =
+     Ok (mkParsed (mkSD (kvs_of (map_leaves foam_written_value (strip_us (Dict c10_doc)))) [] [] [] []) count')).
+Proof.
+  assert (H1 : wf (Dict c10_doc) = true) by (vm_compute; reflexivity).
+  assert (H2 : foam_writable_tree (Dict c10_doc) = true) by (vm_compute; reflexivity).
+  assert (H3 : (Z.of_nat (nq (Dict c10_doc)) <= 1000000)%Z) by (vm_compute; discriminate).
+  assert (H4 : quoted_within 11 (Dict c10_doc) = true) by (vm_compute; reflexivity).
+  refine (conj H1 (conj H2 (conj H3 (conj H4 (conj _ (conj _ (conj _ (conj _ _)))))))); try (vm_compute; reflexivity).
+  exact (C10_roundtrip c10_doc _ 41%Z H1 H2 ltac:(discriminate) H3 H4).
+Qed.
+
+(* the same with the side conditions stated for the tree that is actually written (underscore keys removed): what
+   hangs below an underscore key does not count *)
+Theorem C10_roundtrip_written : forall kvs dirc count,
+  wf (Dict kvs) = true -> foam_writable_tree (Dict kvs) = true ->
+  (-1 <= count)%Z -> (Z.of_nat (nq (strip_us (Dict kvs))) <= 1000000)%Z -> quoted_within 11 (strip_us (Dict kvs)) = true ->
+  exists count',
+  parse_string true dirc count (foam_to_string_plain kvs) =
+    Ok (mkParsed (mkSD (kvs_of (map_leaves foam_written_value (strip_us (Dict kvs)))) [] [] [] []) count').
+Proof. exact roundtrip_foam_stripped. Qed.
+Print Assumptions C10_roundtrip_written.
+
+(* non-vacuity: a quoted string twelve keys deep (outside C10_roundtrip: quoted_within 11 fails) and a leaf outside the
+   writer domain altogether (a string with both quote flavours) sit below underscore keys and are never written *)
+Example C10_roundtrip_written_nonvacuous :
+  let d := [(c10_K "_priv", ce_nest 11 (c10_S "x y")); (c10_K "_odd", c10_S "a'b""c");
+            (c10_K "k", Dict [(c10_K "v", c10_S "it's here"); (c10_K "_w", Lst [c10_S "a""b"])])] in
+  wf (Dict d) = true /\ foam_writable_tree (Dict d) = true /\ quoted_within 11 (Dict d) = false /\
+  (Z.of_nat (nq (strip_us (Dict d))) <= 1000000)%Z /\ quoted_within 11 (strip_us (Dict d)) = true /\
+  parse_string true [] (-1) (foam_to_string_plain d) =
+    Ok (mkParsed (mkSD [(c10_K "k", Dict [(c10_K "v", c10_S "it's here")])] [] [] [] []) 0) /\
+  (exists count', parse_string true [] (-1) (foam_to_string_plain d) =
+     Ok (mkParsed (mkSD (kvs_of (map_leaves foam_written_value (strip_us (Dict d)))) [] [] [] []) count')).
+Proof.
+  intros d.
+  assert (H1 : wf (Dict d) = true) by (vm_compute; reflexivity).
+  assert (H2 : foam_writable_tree (Dict d) = true) by (vm_compute; reflexivity).
+  assert (H3 : (Z.of_nat (nq (strip_us (Dict d))) <= 1000000)%Z) by (vm_compute; discriminate).
+  assert (H4 : quoted_within 11 (strip_us (Dict d)) = true) by (vm_compute; reflexivity).
+  refine (conj H1 (conj H2 (conj _ (conj H3 (conj H4 (conj _ _)))))); try (vm_compute; reflexivity).
+  exact (C10_roundtrip_written d [] (-1)%Z H1 H2 ltac:(discriminate) H3 H4).
+Qed.
+
+(* on the Foam domain the value that comes back is the one the native route gives: the quote flavour does not matter *)
+Theorem C10_values_as_native : forall kvs, foam_writable_tree (Dict kvs) = true ->
+  map_leaves foam_written_value (strip_us (Dict kvs)) = map_leaves written_value (strip_us (Dict kvs)).
+Proof. exact foam_values_as_native. Qed.
+Print Assumptions C10_values_as_native.
+
+(* a string leaf that the classifier does not re-type comes back as itself *)
+Theorem C10_string_unchanged : forall s, foam_leaf (SStr s) = true -> parse_value s = Ok (SStr s) ->
+  foam_written_value (SStr s) = SStr s.
+Proof. exact foam_written_value_string. Qed.
+Print Assumptions C10_string_unchanged.
+
+Example C10_string_unchanged_nonvacuous :
+  let s := of_string "it's (a) list; really" in
+  foam_leaf (SStr s) = true /\ parse_value s = Ok (SStr s) /\ foam_written_value (SStr s) = SStr s.
+Proof.
+  intros s. assert (H1 : foam_leaf (SStr s) = true) by (vm_compute; reflexivity).
+  assert (H2 : parse_value s = Ok (SStr s)) by (vm_compute; reflexivity).
+  exact (conj H1 (conj H2 (C10_string_unchanged s H1 H2))).
+Qed.
+
+(* ---- no single-quoted literal ------------------------------------------------------------------------------------ *)
+(* scan_trace (FoamProofs) is the lexer's literal scanner scan_literals made to report, for every literal it
+   registers, which alternative matched (single- or double-quoted) and the matched text; its first component is
+   scan_literals on every input: *)
+Theorem C10_scan_trace_is_scanner : forall fuel pb count out tab s,
+  fst (scan_trace fuel pb count out tab s) = scan_literals fuel pb count out tab s.
+Proof. exact scan_trace_fst. Qed.
+Print Assumptions C10_scan_trace_is_scanner.
+
+(* On the written text of a Foam-domain tree (as the lexer hands it to the scanner: line endings removed; there are no
+   comments or includes to take out) the scan registers exactly the quoted leaves of the written tree, in document
+   order, every one matched by the DOUBLE-quote alternative; the literal table it builds is the one Lexer.lex
+   returns.  A single quote character occurs in the text only inside such a double-quoted literal. *)
+Theorem C10_no_single_quoted_literal : forall kvs dirc count, foam_writable_tree (Dict kvs) = true ->
+  let text := foam_to_string_plain kvs in
+  let scanned := remove_line_endings text in
+  let run := scan_trace (S (length scanned)) false count [] [] scanned in
+  lxd_lit (lex true dirc count text) = snd (fst run) /\
+  snd run = map (fun s => (c_dq, dq s)) (qstrs (strip_us (Dict kvs))) /\
+  Forall (fun e => fst e = c_dq) (snd run).
+Proof. exact foam_literals_double_quoted. Qed.
+Print Assumptions C10_no_single_quoted_literal.
+
+(* the text: a skeleton free of quote characters whose holes (E2EHoles.expandL) are filled with the strings dq s *)
+Theorem C10_text_shape : forall kvs, foam_writable_tree (Dict kvs) = true ->
+  exists A, foam_to_string_plain kvs = expandL (map dq (qstrs (strip_us (Dict kvs)))) A /\
+            forallb (fun c => negb (is_quote c)) A = true /\ nh A = length (qstrs (strip_us (Dict kvs))) /\
+            Forall (fun s => no_dq s = true) (qstrs (strip_us (Dict kvs))).
+Proof. exact foam_text_shape. Qed.
+Print Assumptions C10_text_shape.
+
+(* non-vacuity: the Foam text of c10_doc contains a single quote CHARACTER (the apostrophe of it's), six literals are
+   registered, all double-quoted; the native text of the same data has single-quoted literals (so the trace does tell
+   the flavours apart) *)
+Example C10_no_single_quoted_literal_nonvacuous :
+  let text := foam_to_string_plain c10_doc in
+  let scanned := remove_line_endings text in
+  let run := scan_trace (S (length scanned)) false 7 [] [] scanned in
+  foam_writable_tree (Dict c10_doc) = true /\
+  has_char c_sq text = true /\
+  snd run = [(c_dq, of_string """two words"""); (c_dq, of_string """it's"""); (c_dq, of_string """""");
+             (c_dq, of_string """a;b {c}"""); (c_dq, of_string """("""); (c_dq, of_string """ true """)] /\
+  map fst (literal_trace 7 (remove_line_endings (to_string_plain (stripped c10_doc)))) = [c_sq; c_dq; c_sq; c_sq; c_sq; c_sq] /\
+  (lxd_lit (lex true [] 7 text) = snd (fst run) /\
+   snd run = map (fun s => (c_dq, dq s)) (qstrs (strip_us (Dict c10_doc))) /\
+   Forall (fun e => fst e = c_dq) (snd run)).
+Proof.
+  intros text scanned run.
+  assert (H : foam_writable_tree (Dict c10_doc) = true) by (vm_compute; reflexivity).
+  refine (conj H (conj _ (conj _ (conj _ (C10_no_single_quoted_literal c10_doc [] 7%Z H))))); vm_compute; reflexivity.
+Qed.
+
+(* OUTSIDE the domain (the property restricts strings to those without double-quote characters): the writer escapes
+   an inner double quote with a backslash, the reader's literal pattern stops at the escaped quote all the same
+   (the literal registered is  "say \" ), the statement no longer has the shape key-value-semicolon and the entry
+   is dropped without an error; the neighbouring entries survive *)
+Example C10_inner_double_quote_not_in_domain :
+  let d := [(c10_K "b", Leaf (SInt 1)); (c10_K "a", c10_S "say ""hi"" now"); (c10_K "c", Leaf (SInt 2))] in
+  foam_writable_tree (Dict d) = false /\
+  foam_to_string_plain d = of_string
+"b                             1;
+a                             ""say \""hi\"" now"";
+c                             2;
+" /\
+  map snd (literal_trace 7 (remove_line_endings (foam_to_string_plain d))) = [of_string """say \"""] /\
+  parse_string true [] 7 (foam_to_string_plain d) =
+    Ok (mkParsed (mkSD [(c10_K "b", Leaf (SInt 1)); (c10_K "c", Leaf (SInt 2))] [] [] [] []) 8).
+Proof. vm_compute. repeat split; reflexivity. Qed.
